@@ -363,6 +363,12 @@ package updown
 //@   before if#4: do gUp[distance] = true
 //@   before if#5: do gDown[distance] = true
 //@   before if#6: do gSide[distance] = true
+//@   # C12: the flattened map contents are put in order by a STABLE sort on (distance, ambiguity count) at these three sites;
+//@   # ties then keep the order they had inside their per-distance list (= arrival order), whatever order the map was
+//@   # iterated in. (That the flattening keeps each list contiguous is outside the contracts: bounded oracle updown_push_order.)
+//@   after call:SliceStable#1: assert [c12.up.sorted] forall(a, 0, len(neighbours.up.catchment), forall(b, a + 1, len(neighbours.up.catchment), !udLess(neighbours.up.catchment[b].distance, neighbours.up.catchment[b].ambCount, neighbours.up.catchment[a].distance, neighbours.up.catchment[a].ambCount) && implies(!udLess(neighbours.up.catchment[a].distance, neighbours.up.catchment[a].ambCount, neighbours.up.catchment[b].distance, neighbours.up.catchment[b].ambCount), sortperm(a) < sortperm(b))))
+//@   after call:SliceStable#2: assert [c12.down.sorted] forall(a, 0, len(neighbours.down.catchment), forall(b, a + 1, len(neighbours.down.catchment), !udLess(neighbours.down.catchment[b].distance, neighbours.down.catchment[b].ambCount, neighbours.down.catchment[a].distance, neighbours.down.catchment[a].ambCount) && implies(!udLess(neighbours.down.catchment[a].distance, neighbours.down.catchment[a].ambCount, neighbours.down.catchment[b].distance, neighbours.down.catchment[b].ambCount), sortperm(a) < sortperm(b))))
+//@   after call:SliceStable#3: assert [c12.side.sorted] forall(a, 0, len(neighbours.side.catchment), forall(b, a + 1, len(neighbours.side.catchment), !udLess(neighbours.side.catchment[b].distance, neighbours.side.catchment[b].ambCount, neighbours.side.catchment[a].distance, neighbours.side.catchment[a].ambCount) && implies(!udLess(neighbours.side.catchment[a].distance, neighbours.side.catchment[a].ambCount, neighbours.side.catchment[b].distance, neighbours.side.catchment[b].ambCount), sortperm(a) < sortperm(b))))
 //@   # no target is dropped silently (same accounting as in findUpDownCatchment): judged at the end of every iteration
 //@   ghost gIgn bool = false
 //@   ghost gCmp bool = false
